@@ -504,6 +504,13 @@ int main(int argc, char **argv)
 			}
 			if (route < 5) printf("[\"T\",%ld,%d,%d,%d,%d,%d,%d,%d,%d]\n", idx, prov, route, cfg, ki, kalg, pub, setkey_rc, jwt_builder_error(b));
 			jwt_builder_error_clear(b);
+			{	/* header and payload JSON of every length residue mod 3 (base64 with and without padding in either segment) */
+				static const char *PADV[] = { "", "a", "ab" };
+				jwt_value_t jv;
+				jwt_set_SET_STR(&jv, "x", PADV[idx % 3]); jwt_builder_header_set(b, &jv);
+				jwt_set_SET_STR(&jv, "y", PADV[(idx / 3) % 3]); jwt_builder_claim_set(b, &jv);
+				jwt_builder_enable_iat(b, 0);
+			}
 			vh_hook_drain(dump, 0);
 			tok = jwt_builder_generate(b);
 			ef = jwt_builder_error(b);
